@@ -862,6 +862,260 @@ theorem C19_bin_tape_cut_error (opt : Bool) (data : Bytes) (k : Nat)
     exact absurd hreach (hno t' r hr)
 
 
+/-! ## what is read is read from the front -/
+
+/-- `r` is what is left of `d` after reading something from its front -/
+def IsSuffix (r d : Bytes) : Prop := ∃ c, d = c ++ r
+
+theorem IsSuffix.refl (d : Bytes) : IsSuffix d d := ⟨[], rfl⟩
+theorem IsSuffix.trans {a b c : Bytes} (h1 : IsSuffix a b) (h2 : IsSuffix b c) : IsSuffix a c := by
+  obtain ⟨x, rfl⟩ := h1; obtain ⟨y, rfl⟩ := h2; exact ⟨y ++ x, by simp⟩
+
+theorem readId_suffix {d r : Bytes} {t : Nat} (h : readId d = some (t, r)) : IsSuffix r d := by
+  match d, h with
+  | a :: b :: rest, h => simp [readId] at h; exact ⟨[a, b], by simp [h.2]⟩
+
+theorem split?_suffix {n : Nat} {d h r : Bytes} (hs : split? n d = some (h, r)) : IsSuffix r d := by
+  unfold split? at hs
+  split at hs
+  · simp at hs; obtain ⟨rfl, rfl⟩ := hs; exact ⟨d.take n, (List.take_append_drop n d).symm⟩
+  · cases hs
+
+theorem readString_suffix {d s r : Bytes} (h : readString d = some (s, r)) : IsSuffix r d := by
+  unfold readString at h
+  cases hr : readId d with
+  | none => simp [hr] at h
+  | some p =>
+    obtain ⟨len, rest⟩ := p
+    simp only [hr] at h
+    split at h
+    · simp at h; obtain ⟨rfl, rfl⟩ := h
+      exact IsSuffix.trans ⟨rest.take len, (List.take_append_drop len rest).symm⟩ (readId_suffix hr)
+    · cases h
+
+theorem readBool_suffix {d r : Bytes} {b : Bool} (h : readBool d = some (b, r)) : IsSuffix r d := by
+  cases d with
+  | nil => simp [readBool] at h
+  | cons x xs => simp [readBool] at h; exact ⟨[x], by simp [h.2]⟩
+
+theorem readRgb_suffix {d r : Bytes} {t : BTok} (h : readRgb d = .ok (t, r)) : IsSuffix r d := by
+  unfold readRgb at h
+  cases h1 : readId d with
+  | none => simp [h1] at h
+  | some p1 =>
+  obtain ⟨start, d1⟩ := p1; simp only [h1] at h
+  cases h2 : readId d1 with
+  | none => simp [h2] at h
+  | some p2 =>
+  obtain ⟨rtok, d2⟩ := p2; simp only [h2] at h
+  cases h3 : split? 4 d2 with
+  | none => simp [h3] at h
+  | some p3 =>
+  obtain ⟨rr, d3⟩ := p3; simp only [h3] at h
+  cases h4 : readId d3 with
+  | none => simp [h4] at h
+  | some p4 =>
+  obtain ⟨gtok, d4⟩ := p4; simp only [h4] at h
+  cases h5 : split? 4 d4 with
+  | none => simp [h5] at h
+  | some p5 =>
+  obtain ⟨g, d5⟩ := p5; simp only [h5] at h
+  cases h6 : readId d5 with
+  | none => simp [h6] at h
+  | some p6 =>
+  obtain ⟨btok, d6⟩ := p6; simp only [h6] at h
+  cases h7 : split? 4 d6 with
+  | none => simp [h7] at h
+  | some p7 =>
+  obtain ⟨b, d7⟩ := p7; simp only [h7] at h
+  cases h8 : readId d7 with
+  | none => simp [h8] at h
+  | some p8 =>
+  obtain ⟨next, d8⟩ := p8; simp only [h8] at h
+  have s8 : IsSuffix d8 d :=
+    (readId_suffix h8).trans ((split?_suffix h7).trans ((readId_suffix h6).trans ((split?_suffix h5).trans
+      ((readId_suffix h4).trans ((split?_suffix h3).trans ((readId_suffix h2).trans (readId_suffix h1)))))))
+  split at h
+  · simp at h; obtain ⟨_, rfl⟩ := h; exact s8
+  · split at h
+    · cases h9 : split? 4 d8 with
+      | none => simp [h9] at h
+      | some p9 =>
+      obtain ⟨a, d9⟩ := p9; simp only [h9] at h
+      cases h10 : readId d9 with
+      | none => simp [h10] at h
+      | some p10 =>
+      obtain ⟨en, d10⟩ := p10; simp only [h10] at h
+      split at h
+      · simp at h; obtain ⟨_, rfl⟩ := h
+        exact (readId_suffix h10).trans ((split?_suffix h9).trans s8)
+      · cases h
+    · cases h
+
+theorem scalarArm_suffix {r : Except Err (Tape × Bytes)} {parent : Nat} {state : PState} {st' : St} {d : Bytes}
+    (hr : ∀ T' d', r = .ok (T', d') → IsSuffix d' d) (h : scalarArm r parent state = .ok st') : IsSuffix st'.data d := by
+  unfold scalarArm at h
+  cases r with
+  | error x => cases h
+  | ok p =>
+    obtain ⟨T', d'⟩ := p
+    simp only at h
+    cases hn : nextState state with
+    | none => simp [hn] at h
+    | some s' => simp [hn] at h; subst h; exact hr T' d' rfl
+
+theorem parseFixed_suffix {n : Nat} {mk : Bytes → BTok} {T T' : Tape} {d r : Bytes} (h : parseFixed n mk T d = .ok (T', r)) :
+    IsSuffix r d := by
+  unfold parseFixed at h
+  cases hs : split? n d with
+  | none => simp [hs] at h
+  | some p => obtain ⟨hd, rest⟩ := p; simp [hs] at h; rw [← h.2]; exact split?_suffix hs
+
+theorem tokenArm_suffix {tape : Tape} {parent : Nat} {state : PState} {d : Bytes} {tok : Nat} {st' : St}
+    (h : tokenArm false 0 tape parent state d tok = .ok st') : IsSuffix st'.data d := by
+  have fx : ∀ n mk, ∀ T' d', parseFixed n mk tape d = .ok (T', d') → IsSuffix d' d := fun _ _ _ _ hh => parseFixed_suffix hh
+  unfold tokenArm at h
+  by_cases c1 : tok = L.u32
+  · rw [if_pos c1] at h; exact scalarArm_suffix (fx _ _) h
+  rw [if_neg c1] at h
+  by_cases c2 : tok = L.u64
+  · rw [if_pos c2] at h; exact scalarArm_suffix (fx _ _) h
+  rw [if_neg c2] at h
+  by_cases c3 : tok = L.i32
+  · rw [if_pos c3] at h
+    cases hsa : scalarArm (parseI32 tape d) parent state with
+    | error x => simp [hsa] at h
+    | ok st => simp [hsa] at h; subst h; exact scalarArm_suffix (fx _ _) hsa
+  rw [if_neg c3] at h
+  by_cases c4 : tok = L.bool
+  · rw [if_pos c4] at h
+    refine scalarArm_suffix ?_ h
+    intro T' d' hh; unfold parseBool at hh
+    cases hb : readBool d with
+    | none => simp [hb] at hh
+    | some p => obtain ⟨b, r⟩ := p; simp [hb] at hh; rw [← hh.2]; exact readBool_suffix hb
+  rw [if_neg c4] at h
+  by_cases c5 : tok = L.quoted
+  · rw [if_pos c5] at h
+    refine scalarArm_suffix ?_ h
+    intro T' d' hh; unfold parseQuoted at hh
+    cases hb : readString d with
+    | none => simp [hb] at hh
+    | some p => obtain ⟨b, r⟩ := p; simp [hb] at hh; rw [← hh.2]; exact readString_suffix hb
+  rw [if_neg c5] at h
+  by_cases c6 : tok = L.unquoted
+  · rw [if_pos c6] at h
+    refine scalarArm_suffix ?_ h
+    intro T' d' hh; unfold parseUnquoted at hh
+    cases hb : readString d with
+    | none => simp [hb] at hh
+    | some p => obtain ⟨b, r⟩ := p; simp [hb] at hh; rw [← hh.2]; exact readString_suffix hb
+  rw [if_neg c6] at h
+  by_cases c7 : tok = L.f32
+  · rw [if_pos c7] at h; exact scalarArm_suffix (fx _ _) h
+  rw [if_neg c7] at h
+  by_cases c8 : tok = L.f64
+  · rw [if_pos c8] at h; exact scalarArm_suffix (fx _ _) h
+  rw [if_neg c8] at h
+  by_cases c9 : tok = L.open_
+  · rw [if_pos c9] at h
+    unfold openArm at h
+    split at h
+    · simp at h; subst h; exact IsSuffix.refl _
+    · split at h
+      · cases h
+      · cases hr : readId d with
+        | none => simp [hr] at h
+        | some p =>
+          obtain ⟨x, nd⟩ := p
+          simp only [hr] at h
+          split at h
+          · simp at h; subst h; exact readId_suffix hr
+          · cases h
+  rw [if_neg c9] at h
+  by_cases c10 : tok = L.close
+  · rw [if_pos c10] at h
+    unfold closeArm at h
+    simp only at h
+    split at h
+    · cases h
+    · rename_i tape1 _
+      cases hp : pushEnd tape1 parent with
+      | error x => simp [hp] at h
+      | ok p => obtain ⟨a, b, c⟩ := p; simp [hp] at h; subst h; exact IsSuffix.refl _
+  rw [if_neg c10] at h
+  by_cases c11 : tok = L.equal
+  · rw [if_pos c11] at h
+    -- every branch of the `=` arm keeps `d`
+    unfold equalArm at h
+    repeat' split at h
+    all_goals first | (cases h; done) | (simp at h; subst h; exact IsSuffix.refl _)
+  rw [if_neg c11] at h
+  by_cases c12 : tok = L.rgb ∧ state = .objectValue
+  · rw [if_pos c12] at h
+    unfold parseRgb at h
+    cases hr : readRgb d with
+    | error x => simp [hr] at h
+    | ok p => obtain ⟨t, rest⟩ := p; simp [hr] at h; subst h; exact readRgb_suffix hr
+  rw [if_neg c12] at h
+  by_cases c13 : tok = L.i64
+  · rw [if_pos c13] at h; exact scalarArm_suffix (fx _ _) h
+  rw [if_neg c13] at h
+  exact scalarArm_suffix (fun _ _ hh => by simp at hh; rw [← hh.2]; exact IsSuffix.refl _) h
+
+theorem step_suffix {st st' : St} (h : step st = .next st') : IsSuffix st'.data st.data := by
+  cases hr : readId st.data with
+  | none => rw [step_done hr] at h; cases h
+  | some p =>
+    obtain ⟨tok, d⟩ := p
+    rw [step_eq hr] at h
+    cases hd : dispatch false 0 st.tape st.parent st.state d tok with
+    | error x => simp [hd, Iter.ofExcept] at h
+    | ok s =>
+      simp [hd, Iter.ofExcept] at h; subst h
+      refine IsSuffix.trans ?_ (readId_suffix hr)
+      unfold dispatch at hd
+      split at hd
+      · cases hm : mixedInsert2 st.tape with
+        | error x => simp [hm] at hd
+        | ok t => simp only [hm] at hd; exact tokenArm_suffix hd
+      · exact tokenArm_suffix hd
+
+theorem Reach.suffix {a b : St} (h : Reach a b) : IsSuffix b.data a.data := by
+  obtain ⟨k, hk⟩ := h
+  induction k generalizing a with
+  | zero => simp [stepN] at hk; subst hk; exact IsSuffix.refl _
+  | succ k ih =>
+    cases hs : step a with
+    | next a' => simp only [stepN, hs] at hk; exact (ih hk).trans (step_suffix hs)
+    | done => simp [stepN, hs] at hk
+    | err e => simp [stepN, hs] at hk
+
+/-- the cut point as an offset: the accepted prefix ends at a point `j ∈ {k-1, k}` of the input where
+the full run stands at depth 0 in key state -/
+theorem C19_bin_tape_cut_offset (opt : Bool) (data : Bytes) (k : Nat) (hk : k ≤ data.length) (t' : Tape)
+    (h : parse opt (data.take k) = .ok t') :
+    ∃ j, j ≤ k ∧ k ≤ j + 1 ∧ Reach (init data) ⟨t', 0, .key, data.drop j⟩ := by
+  have h' : parse false (data.take k) = .ok t' := by
+    cases opt
+    · exact h
+    · rwa [parse_true_eq_false] at h
+  obtain ⟨r, hr, hreach⟩ := run_false_ok_reach _ _ _ _ h'
+  obtain ⟨c, hc⟩ := hreach.suffix
+  simp only [init] at hc
+  have hlen : c.length + r.length = k := by
+    have := congrArg List.length hc
+    simp at this; omega
+  refine ⟨c.length, by omega, by omega, ?_⟩
+  have hd : data.drop c.length = r ++ data.drop k := by
+    have : data = c ++ (r ++ data.drop k) := by
+      rw [← List.append_assoc, ← hc, List.take_append_drop]
+    conv => lhs; rw [this]
+    simp
+  rw [hd]
+  have := hreach.ext (data.drop k)
+  simpa [init, List.take_append_drop] using this
+
 /-- hypotheses satisfiable: `id = I32 5  id = {` cut after the first field (k = 10) and one byte later -/
 example : parse true (([0x82, 0x2d, 1, 0, 0x0c, 0, 5, 0, 0, 0, 0x82, 0x2d, 1, 0, 3, 0] : Bytes).take 10)
       = .ok [.token 0x2d82, .i32 5] ∧
